@@ -290,7 +290,9 @@ def run(ctx):
         limit = 150 if quick else 10 ** 9
         pieces = list(ALPHA_A + ALPHA_B) + ['\\x41', '\\x4', '\\101', '\\u0041', '\\U00000041', '\\U00110000', '\\N{DIGIT ONE}',
                                           '\\N{', '\\N{NOPE}', '@(', '!(', '*(', '+(', '?(', '[!', '[:alpha:]', '[[:alpha:]]',
-                                          '**', '***', '//', '{a,b}', '{1..3}', '~', '-', 'b', '.', '..']
+                                          '**', '***', '//', '{a,b}', '{1..3}', '~', '-', 'b', '.', '..',
+                                          # text that looks like regular-expression syntax must stay plain text
+                                          '(?#)', '[(?#)]', '(?:', '(?i)', '(?=a)', '\\Z', '$', '^', '[^', '#', '(?P<n>', '\\1', '{2}', '+?', '[a&&b]', '[a||b]', '[a--b]', '[~~a]']
         while k < limit and not ctx.out_of_time():
             k += 1
             rng = ctx.rng_for('rand', ctx.shard, k)
